@@ -1,3 +1,4 @@
+import Mqtt5V.Proofs.PubSend
 import Mqtt5V.Proofs.Replies
 /-! # C01 — publish success is truthful (reply-matching core)
 
@@ -149,5 +150,41 @@ theorem ok_completion_has_matching_reply (is : List In) :
 /-- non-vacuity: a reply that arrives before its waiter is consumed by it; a replaced waiter is aborted -/
 example : (runR {} [.dispatch 0x40 5 77, .wait 1 0x40 5, .wait 2 0x50 9, .wait 3 0x50 9, .dispatch 0x50 9 88]).2
     = [⟨1, .ok, 77⟩, ⟨2, .aborted, 0⟩, ⟨3, .ok, 88⟩] := by decide
+
+
+/-! ## the publish operation (`publish_send_op`, Model/PubSend.lean, tied by the H-pubsend lock-step) -/
+section PubSendOp
+open Mqtt5V.Proofs.PubSend
+
+/-- **a reported success is the broker's**: the handler receives reason code `rc` only if a decodable acknowledgement with an
+admissible reason code `rc` arrived (and its properties, except for a failing PUBREC which ends a QoS 2 exchange without them) -/
+theorem success_reports_an_acknowledgement (is : List Model.PubSend.In) : ∀ (s : Model.PubSend.S) (rc p : Nat), Model.PubSend.Act.completeOk rc p ∈ (Model.PubSend.run s is).2 →
+    ∃ p', Model.PubSend.In.reply (.ack rc p') ∈ is ∧ (p = p' ∨ p = 0) := by
+  induction is with
+  | nil => intro s rc p h; simp [Model.PubSend.run] at h
+  | cons i is ih =>
+    intro s rc p h
+    simp only [Model.PubSend.run, List.mem_append] at h
+    rcases h with h | h
+    · obtain ⟨qos2, phase, dup, cancelled⟩ := s
+      cases i with
+      | cancelSignal => simp [Model.PubSend.step] at h
+      | sent r => cases r <;> cases phase <;> cases cancelled <;> simp [Model.PubSend.step, Model.PubSend.resendPublish, Model.PubSend.finishErr] at h
+      | reply r =>
+        cases r with
+        | ack rc' props =>
+          by_cases hrc : 128 ≤ rc'
+          · rw [step_ack_err _ rc' props hrc] at h
+            cases phase <;> cases qos2 <;> simp [Model.PubSend.finishOk] at h <;>
+              (obtain ⟨h1, h2⟩ := h; subst h1; exact ⟨props, by simp, by omega⟩)
+          · rw [step_ack_ok _ rc' props hrc] at h
+            cases phase <;> cases qos2 <;> simp [Model.PubSend.finishOk] at h <;>
+              (obtain ⟨h1, h2⟩ := h; subst h1; exact ⟨props, by simp, by omega⟩)
+        | _ => cases phase <;> cases cancelled <;> simp [Model.PubSend.step, Model.PubSend.resendPublish, Model.PubSend.finishErr] at h
+    · obtain ⟨p', hm, hp⟩ := ih _ rc p h
+      exact ⟨p', by simp [hm], hp⟩
+
+
+end PubSendOp
 
 end Mqtt5V.Props.C01
